@@ -3,8 +3,10 @@ package sim
 import (
 	"context"
 	"fmt"
+	"github.com/NVIDIA/KAI-scheduler/pkg/scheduler/log"
 	"hash/fnv"
 	"net/http"
+	"os"
 	"runtime/debug"
 	"sort"
 	"strings"
@@ -45,6 +47,11 @@ func initScheduler() {
 	initOnce.Do(func() {
 		actions.InitDefaultActions()
 		plugins.InitDefaultPlugins()
+		if lv := os.Getenv("VERIF_SCHED_LOG"); lv != "" {
+			n := 0
+			fmt.Sscan(lv, &n)
+			_ = log.InitLoggers(n)
+		}
 	})
 }
 
@@ -709,21 +716,24 @@ func recreate(s *Store, old *v1.Pod) {
 
 func fmtInt(i int) string { return fmt.Sprintf("%d", i) }
 
-// PodGroups returns the GPU groups a pod is attached to through its labels.
+// PodGroups returns the GPU groups a pod is attached to through its labels, in either label form
+// (`runai-gpu-group` and `runai-gpu-group/<group>`), without duplicates.
 func PodGroups(p *v1.Pod) []string {
+	seen := map[string]bool{}
 	var out []string
-	g, ok := p.Labels[GPUGroupLabel]
-	if !ok {
-		return nil
+	if g, ok := p.Labels[GPUGroupLabel]; ok && g != "" {
+		seen[g] = true
+		out = append(out, g)
 	}
-	out = append(out, g)
+	var more []string
 	for k, v := range p.Labels {
-		if strings.HasPrefix(k, GPUGroupLabel+"/") && v != g {
-			out = append(out, v)
+		if strings.HasPrefix(k, GPUGroupLabel+"/") && !seen[v] {
+			seen[v] = true
+			more = append(more, v)
 		}
 	}
-	sort.Strings(out[1:])
-	return out
+	sort.Strings(more)
+	return append(out, more...)
 }
 
 // ---------------------------------------------------------------------------------------------
